@@ -52,6 +52,7 @@ class CohGen:
             global_serialize=True,                      # D20 (repaired)
             ns_var_default=True,                        # namespaced variable with initialiser (D7, repaired)
             nonconst_print=False,                       # D36 (pybind)
+            print_required_arg=False,                   # D51 (pybind)
             nonvirtual_inheritance=True,
             tparam_in_vector=True,      # std::vector<T> with T a class template parameter (pybind universe)
             templated_class_enum_use=(target == 'pybind'),
@@ -59,6 +60,8 @@ class CohGen:
             class_enum_default=(target == 'matlab'),    # D40 (pybind): default value of the class's own enum type
             typedefs=True,
             serialize_p=0.0,            # probability that a class declares the serialize() marker
+            member_template_p=0.2,      # methods (and, where the target allows, static methods / free functions) with
+                                        # their own template parameter and instantiation list
             ref_returns=True,           # class objects returned by reference / const reference
             enum_namesakes=0.3,         # class-scoped enums of different classes sharing one simple name
             split_overloads=False,      # D50 (matlab): overloads of a free function in two blocks of one namespace
@@ -392,11 +395,24 @@ class CohGen:
                 if nm == 'print':
                     ret = S.VOID
                     a = tuple(x for x in a if x.type.name in SCALARS + ['string'])[:1]
+                    if not f['print_required_arg']:
+                        # D51: __repr__ takes print's parameters; with a required one repr(obj) cannot be called, and
+                        # pybind11 calls it for every default value of the class type while the module is imported
+                        a = tuple(S.Arg(x.type, x.name, x.default if x.default is not None else self.default_for(x.type.bare()))
+                                  for x in a)
+                        a = tuple(x for x in a if x.default is not None)
+                mt = None
+                if r.random() < f['member_template_p'] and nm not in used_names and \
+                        nm not in ('print', 'serialize', 'serializable') and nm not in PY_RESERVED_CPP_OK + IPY:
+                    mt = self.member_template(tparams)
+                    a, ret = self._use_member_param(a, ret, mt[0].name)
+                    if ret.k == 'Pair' and not f['templated_method_pair']:
+                        ret = S.T('double')
                 if not self._arity_ok(used_names, members, nm, a, 'Method'):
                     continue
-                used_names[nm] = 'method'
+                used_names[nm] = 'method' if mt is None else 'templated'
                 const = True if (nm == 'print' and not f['nonconst_print']) else r.random() < 0.6
-                members.append(S.Method(nm, ret, a, const))
+                members.append(S.Method(nm, ret, a, const, mt))
             elif k == 'static':
                 nm = self.member_name('static')
                 a = margs()
@@ -405,8 +421,12 @@ class CohGen:
                     ret = S.T('This')
                 if nm in used_names:
                     continue
+                mt = None
+                if f['templated_static'] and r.random() < f['member_template_p'] and nm not in PY_RESERVED_CPP_OK + IPY:
+                    mt = self.member_template(tparams)
+                    a, ret = self._use_member_param(a, ret, mt[0].name)
                 used_names[nm] = 'static'
-                members.append(S.Static(nm, ret, a))
+                members.append(S.Static(nm, ret, a, mt))
             elif k == 'prop':
                 t = self.arg_type()
                 if t.marker in ('&', '@') or (t.marker == '*' and not f['ptr_property']):
@@ -451,6 +471,40 @@ class CohGen:
         self.classes.append(rec)
         return S.Class(name, tuple(members), tmpl, virtual, base)
 
+    def member_template(self, taken=()):
+        """one template parameter with an instantiation list for a method / static method / free function"""
+        r = self.r
+        pool = [S.T('int'), S.T('double'), S.T('size_t'), S.T('bool')] + ([S.T('string')] if self.target == 'pybind' else [])
+        pool += [t for c, t in self.visible_classes() if c['template'] is None and c['copyable'] and c['default_ctor']][:3]
+        lst = r.sample(pool, min(len(pool), r.choice([1, 2, 2, 3])))
+        seen = set()
+        lst = [t for t in lst if not (t.name.lower() in seen or seen.add(t.name.lower()))]
+        pname = next(n for n in ('V', 'W', 'ARG', 'V2') if n not in taken)
+        return (S.TParam(pname, tuple(lst)),)
+
+    def _use_member_param(self, a, ret, pname):
+        """make the member-level parameter occur: in scalar argument positions and / or as the return type; it may
+        also occur nowhere (then only the explicit template argument tells the instantiations apart)"""
+        r = self.r
+        out = []
+        for x in a:
+            t = x.type
+            if not t.args and not t.ns and t.name in SCALARS and r.random() < 0.5:
+                out.append(S.Arg(S.T(pname, (), (), t.const, t.marker), x.name, None))
+            else:
+                out.append(x)
+        # defaults must stay a suffix
+        seen_nodefault = False
+        fixed = []
+        for x in reversed(out):
+            if x.default is None:
+                seen_nodefault = True
+            fixed.append(S.Arg(x.type, x.name, None) if seen_nodefault else x)
+        out = tuple(reversed(fixed))
+        if ret.k == 'T' and not ret.args and not ret.ns and ret.name in SCALARS and r.random() < 0.4:
+            ret = S.T(pname)
+        return out, ret
+
     def _arity_ok(self, used, members, nm, a, kind):
         """overloads of one name must have disjoint arity sets (so that dispatch is unambiguous)."""
         mine = set(range(len(a) - sum(1 for x in a if x.default is not None), len(a) + 1))
@@ -473,6 +527,11 @@ class CohGen:
                 theirs = set(range(len(fn.args) - sum(1 for x in fn.args if x.default is not None), len(fn.args) + 1))
                 if mine & theirs:
                     return None
+        if self.f['templated_func'] and self.r.random() < self.f['member_template_p'] and \
+                not any(fn.name == nm for fn in existing) and nm not in PY_RESERVED_CPP_OK + IPY:
+            mt = self.member_template()
+            a, ret = self._use_member_param(a, ret, mt[0].name)
+            return S.Func(nm, ret, a, mt)
         return S.Func(nm, ret, a)
 
     def namespace_items(self, depth):
@@ -519,7 +578,7 @@ class CohGen:
                     # overload of an existing name with a different arity
                     base = r.choice(funcs)
                     fn2 = S.Func(base.name, fn.ret, fn.args)
-                    if self._func_arity_ok(funcs, fn2):
+                    if not base.template and not fn.template and self._func_arity_ok(funcs, fn2):
                         fn = fn2
                 if fn and self._func_arity_ok(funcs, fn):
                     funcs.append(fn)
